@@ -468,6 +468,7 @@ def run (ctx):
   c18s_.packet_truth_tests(ctx, repo, repo.cls('datapaths.switch', 'SoftwareSwitchBase'), 'D1')
   # ---- mechanisms this property shares with others: their checks' rules about these functions are obligations here too
   ctx.include('C18', ['_process_actions_for_packet_from_buffer'], 'actions of a buffered packet run inside the use-and-free routine')
+  ctx.include('C14', ['udp.checksum', 'tcp.checksum', 'packet_utils:checksum'], "a frame whose fields an action rewrote is emitted with the checksums the packet library computes")
 
 def _checksums (ctx, repo):
   """rewriting actions re-serialise the frame: the checksum routine they rely on (shared with C14)"""
